@@ -31,6 +31,9 @@ def gen_history(rng, n=(5, 10)):
             p = rng.choice(tracked); ver += 1
             items.append(["W", p, ("%s v%d %s" % (p, ver, "x" * rng.randint(0, 3))).encode().hex()])
             items.append(["carry", [p]])
+            if rng.random() < 0.3:
+                # committing again with --force (same content): still "committing", must not lose a version
+                items.append([rng.choice(["carryf", "trackf"]), [p]])
         elif k < 0.45:
             fresh = [p for p in PATHS if p not in tracked and p not in [i[1] for i in items if i[0] == "W"]]
             if fresh:
@@ -102,6 +105,10 @@ def run_history(xvc, h):
                 r = rp.xvc("file", "track", "--recheck-method", h["method"], *it[1])
             elif k == "carry":
                 r = rp.xvc("file", "carry-in", *it[1])
+            elif k == "carryf":
+                r = rp.xvc("file", "carry-in", "--force", *it[1])
+            elif k == "trackf":
+                r = rp.xvc("file", "track", "--force", *it[1])
             elif k == "recheck":
                 r = rp.xvc("file", "recheck", *it[1])
             elif k in ("copy", "move"):
@@ -226,7 +233,7 @@ def run(chk, replay=None):
         cdir = os.path.join(C.ROOT, "corpus", "C04")
         for f in sorted(os.listdir(cdir)) if os.path.isdir(cdir) else []:
             hs.append(json.load(open(os.path.join(cdir, f)))["input"])
-        for i in range(36 if chk.tier == "quick" else 400):
+        for i in range(90 if chk.tier == "quick" else 800):
             hs.append(gen_history(chk.rng))
     with ThreadPoolExecutor(12) as ex:
         results = list(ex.map(lambda h: run_history(xvc, h), hs))
